@@ -411,7 +411,8 @@ PROPS = {
         builds=["harness"],
         legs=_legs_simple("c07", 12000, 200000),
         rule=GEN_NOTE + "items_per_slot in {1,2,3,5} and block_size in {2,3,4} so a zoom level spans several blocks; manual "
-        "resolutions {1,4,7,10,13,100,400,1000,...} two times out of three. Every zoom block of every level is decoded "
+        "resolutions {1,4,7,10,13,100,400,1000,...} two times out of three (including lists that are not ascending, "
+        "repeat a size or contain 0: the levels must still be listed strictly increasing). Every zoom block of every level is decoded "
         "by the independent walker (harness/src/walk.rs) and each record compared with statistics recomputed from the "
         "input (covered bases exact, min/max exact, sum/sumsq within 2 ulp + 1e-6 * sum|term|); per chromosome the "
         "records' covered bases must add up to the data's; levels strictly increasing; reader's get_zoom_interval = "
